@@ -755,7 +755,7 @@ func replayDispatch(id string, g *nameGroup, path string) string {
 	if g.Fail == nil || replayExec == nil {
 		return " no-failing-input-found"
 	}
-	r := replayExec.replayValueFunction(g.Fail, filepath.Join(verifRoot, "work", "replay", id))
+	r := replayExec.replayValueFunction(g.Fail, filepath.Join(scratchRoot, "work", "replay", id))
 	var rec map[string]interface{}
 	if b, err := os.ReadFile(path); err == nil {
 		json.Unmarshal(b, &rec)
